@@ -75,4 +75,36 @@ PrimMustAdmit(kind, gg, rl, HT, writerWaiting) ==
 \* (A newcomer that finds the lock free between the release and the hand-over is not a hand-over: agnostic.)
 PrimHandOverOK(prio, waitingPrios) == \A qq \in waitingPrios : prio >= qq
 
+(***************************************************************************)
+(* The textbook objects ACROSS TIME, as far as the client API documents it *)
+(* (client/*.go: every primitive is constructed with `timeout` - how long  *)
+(* a blocking call waits - and `expried` - how long a granted hold lasts;  *)
+(* a re-entrant Lock of an RLock renews it).  Whole seconds.               *)
+(*                                                                         *)
+(* A hold taken (or renewed) at second tt with expiry ex                   *)
+(*   - is DEFINITELY outstanding while  PrimLive  (its holder may release  *)
+(*     it: the release is not refused and gives the unit back),            *)
+(*   - has DEFINITELY ended once  PrimGone  (its unit is free again),      *)
+(*   - in between (the second in which the server's sweep ends it) nothing *)
+(*     is claimed.                                                         *)
+(* A release / Set / Clear has no expiry: what it established stays.       *)
+(***************************************************************************)
+PrimLive(tt, ex, now) == now - tt < ex
+PrimGone(tt, ex, now) == now - tt > ex + 1
+
+\* Event.  `last` is the last Set / Clear call that returned ("set", "clear", or "none"), made at second tt.
+\* default-set   (kind "event_set"):   Clear TAKES a hold of `expried` seconds (the clear state lapses with it), Set drops it
+\* default-clear (kind "event_clear"): Set TAKES the hold (the set state lapses with it), Clear drops it
+PrimEvDefSet(kind, last, tt, ex, now) ==
+    IF kind = "event_set" THEN last \in {"none", "set"} \/ (last = "clear" /\ PrimGone(tt, ex, now))
+    ELSE last = "set" /\ PrimLive(tt, ex, now)
+PrimEvDefClear(kind, last, tt, ex, now) ==
+    IF kind = "event_set" THEN last = "clear" /\ PrimLive(tt, ex, now)
+    ELSE last \in {"none", "clear"} \/ (last = "set" /\ PrimGone(tt, ex, now))
+
+\* Nobody may stay blocked while the object is free for ALL of the blocked requests (whatever the fairness policy is,
+\* one of them must have been admitted): WT is the set of blocked requests [g, rl], HT every hold that may still exist.
+PrimSomeoneMustBeAdmitted(kind, nn, WT, HT) ==
+    WT # {} /\ \A ww \in WT : PrimAdmissible(kind, nn, ww.g, ww.rl, HT)
+
 =============================================================================
